@@ -49,7 +49,7 @@ func tokenOf(ch ssa.Value) string {
 		return tkSeqP
 	}
 	if p, ok := ch.(*ssa.Parameter); ok {
-		if p.Type().String() == "chan chan struct{}" {
+		if p.Type().Underlying().String() == "chan chan struct{}" {
 			return tkSigP
 		}
 	}
